@@ -1,18 +1,654 @@
-//! C16 — not built yet (stub).
+//! C16 — concurrent saves of a workbook or its clones equal sequential saves.
+//! Engine E3: cooperative scheduler over REAL threads running the real `write_writer`; scheduling points are
+//! the cfg(umya_verif) hook calls placed before every shared-string-table lock operation and at entry/exit
+//! of make_buffer.  Exactly one saver runs between two points, so an execution is a deterministic function
+//! of the choice sequence; DFS over choice sequences with iterative preemption bounding.
 use crate::common::*;
+use crate::dump::*;
+use crate::e1::*;
 use crate::pool::*;
-use serde_json::Value;
+use serde_json::{json, Value};
+use std::cell::RefCell;
+use std::sync::{Arc, Condvar, Mutex};
+use std::time::{Duration, Instant};
+use umya_spreadsheet::*;
 
 pub fn entry() -> crate::Entry {
     crate::Entry { id: "C16", run, space, replay }
 }
-pub fn space(_tier: Tier, _id: &str) -> Option<Box<dyn Space>> {
-    None
+
+// ------------------------------------------------------------------------------------------------
+// scheduler
+
+#[derive(Clone, Debug, PartialEq)]
+enum St {
+    NotStarted,
+    Running,
+    Parked(u32),
+    Done,
 }
-fn replay(_tier: Tier, _case: &Value) -> Vec<Violation> {
-    vec![]
+
+struct Inner {
+    st: Vec<St>,
+    token: Option<usize>,
 }
-fn run(_ctx: &Ctx) -> i32 {
-    eprintln!("MACHINERY: C16 is not built yet");
-    2
+struct Shared {
+    m: Mutex<Inner>,
+    cv: Condvar,
+}
+
+static SKIP_ENTRY_EXIT: std::sync::atomic::AtomicBool = std::sync::atomic::AtomicBool::new(false);
+
+thread_local! {
+    static ME: RefCell<Option<(usize, Arc<Shared>)>> = RefCell::new(None);
+}
+
+/// The callback installed into umya_spreadsheet::verif_hook.
+fn hook(site: u32) {
+    // quick tier: make_buffer entry/exit (sites 6, 7) are not scheduling points - they are not followed by a
+    // shared-state operation before the next lock site, so interleavings that differ only there are equivalent
+    if (site == 6 || site == 7) && SKIP_ENTRY_EXIT.load(std::sync::atomic::Ordering::Relaxed) {
+        return;
+    }
+    let me = ME.with(|m| m.borrow().clone());
+    if let Some((id, sh)) = me {
+        park(id, &sh, site);
+    }
+}
+
+fn park(id: usize, sh: &Arc<Shared>, site: u32) {
+    let mut g = sh.m.lock().unwrap();
+    g.st[id] = St::Parked(site);
+    sh.cv.notify_all();
+    while g.token != Some(id) {
+        g = sh.cv.wait(g).unwrap();
+    }
+    g.token = None;
+    g.st[id] = St::Running;
+}
+
+#[derive(Clone, Debug)]
+pub struct Exec {
+    pub choices: Vec<usize>,
+    /// enabled saver ids at each point, in canonical order
+    pub enabled: Vec<Vec<usize>>,
+    /// site at which each enabled saver is parked
+    pub sites: Vec<Vec<u32>>,
+    /// whether choice 0 at this point continues the saver that ran last
+    pub zero_is_last: Vec<bool>,
+    pub outputs: Vec<Result<Vec<u8>, String>>,
+    pub progress_keys: Vec<u64>,
+}
+
+pub enum RunErr {
+    Infeasible,
+    Stuck(String),
+}
+
+/// Execute one schedule: follow `prefix`, then always choice 0.  `books[k]` is saved by saver k
+/// (several savers may hold the same Arc).
+fn run_schedule(books: &[Arc<Spreadsheet>], prefix: &[usize], beat: &Beat) -> Result<Exec, RunErr> {
+    let n = books.len();
+    let sh = Arc::new(Shared { m: Mutex::new(Inner { st: vec![St::NotStarted; n], token: None }), cv: Condvar::new() });
+    let results: Arc<Mutex<Vec<Option<Result<Vec<u8>, String>>>>> = Arc::new(Mutex::new(vec![None; n]));
+    let mut handles = vec![];
+    for id in 0..n {
+        let sh2 = sh.clone();
+        let book = books[id].clone();
+        let res = results.clone();
+        handles.push(std::thread::spawn(move || {
+            ME.with(|m| *m.borrow_mut() = Some((id, sh2.clone())));
+            park(id, &sh2, 0);
+            let r = std::panic::catch_unwind(std::panic::AssertUnwindSafe(|| {
+                let mut buf: Vec<u8> = Vec::new();
+                writer::xlsx::write_writer(&book, &mut buf).map(|_| buf).map_err(|e| format!("write error: {:?}", e))
+            }));
+            let r = match r {
+                Ok(x) => x,
+                Err(e) => Err(format!("panic: {}", panic_msg(&e))),
+            };
+            res.lock().unwrap()[id] = Some(r);
+            ME.with(|m| *m.borrow_mut() = None);
+            let mut g = sh2.m.lock().unwrap();
+            g.st[id] = St::Done;
+            sh2.cv.notify_all();
+        }));
+    }
+    let mut ex = Exec { choices: vec![], enabled: vec![], sites: vec![], zero_is_last: vec![], outputs: vec![], progress_keys: vec![] };
+    let mut last: Option<usize> = None;
+    let mut progress = vec![0u32; n];
+    let mut stuck: Option<String> = None;
+    let mut infeasible = false;
+    loop {
+        // wait for quiescence: nobody Running / NotStarted
+        let t0 = Instant::now();
+        let mut g = sh.m.lock().unwrap();
+        loop {
+            let busy = g.st.iter().any(|s| matches!(s, St::Running | St::NotStarted)) || g.token.is_some();
+            if !busy {
+                break;
+            }
+            let (g2, to) = sh.cv.wait_timeout(g, Duration::from_millis(200)).unwrap();
+            g = g2;
+            if to.timed_out() && t0.elapsed() > Duration::from_secs(20) {
+                stuck = Some(format!("saver states {:?} after choices {:?}", g.st, ex.choices));
+                break;
+            }
+        }
+        if stuck.is_some() {
+            break;
+        }
+        let parked: Vec<usize> = (0..n).filter(|i| matches!(g.st[*i], St::Parked(_))).collect();
+        if parked.is_empty() {
+            break; // all done
+        }
+        // canonical order: the saver that ran last first (if still enabled), then ascending ids
+        let mut en = vec![];
+        let mut zero_last = false;
+        if let Some(l) = last {
+            if parked.contains(&l) {
+                en.push(l);
+                zero_last = true;
+            }
+        }
+        for p in &parked {
+            if Some(*p) != last || !zero_last {
+                if !en.contains(p) {
+                    en.push(*p);
+                }
+            }
+        }
+        let sites: Vec<u32> = en.iter().map(|i| if let St::Parked(s) = g.st[*i] { s } else { 0 }).collect();
+        let pos = ex.choices.len();
+        let c = if pos < prefix.len() { prefix[pos] } else { 0 };
+        if c >= en.len() {
+            infeasible = true;
+            // drain: let everybody finish with choice 0 so that threads end
+            let chosen = en[0];
+            g.token = Some(chosen);
+            sh.cv.notify_all();
+            drop(g);
+            last = Some(chosen);
+            ex.choices.push(0);
+            ex.enabled.push(en);
+            ex.sites.push(sites);
+            ex.zero_is_last.push(zero_last);
+            continue;
+        }
+        let chosen = en[c];
+        progress[chosen] += 1;
+        let key = {
+            let mut s = format!("{:?}|{}", progress, chosen);
+            s.push_str(&format!("{:?}", sites));
+            fnv(s.as_bytes())
+        };
+        ex.progress_keys.push(key);
+        ex.choices.push(c);
+        ex.enabled.push(en);
+        ex.sites.push(sites);
+        ex.zero_is_last.push(zero_last);
+        beat.note(&format!("schedule choices so far {:?}", ex.choices));
+        g.token = Some(chosen);
+        last = Some(chosen);
+        sh.cv.notify_all();
+        drop(g);
+    }
+    if let Some(s) = stuck {
+        // threads cannot be reclaimed; the caller turns this into a hang for the pool watchdog
+        return Err(RunErr::Stuck(s));
+    }
+    for h in handles {
+        let _ = h.join();
+    }
+    if infeasible {
+        return Err(RunErr::Infeasible);
+    }
+    let res = results.lock().unwrap();
+    ex.outputs = res.iter().map(|r| r.clone().unwrap_or(Err("no result".into()))).collect();
+    Ok(ex)
+}
+
+// ------------------------------------------------------------------------------------------------
+// configurations
+
+#[derive(Clone, Debug)]
+pub struct Config {
+    pub name: &'static str,
+    /// saver k saves object `objects[k]` (equal indices = the same &Spreadsheet)
+    pub objects: Vec<usize>,
+    /// texts of object j (clone j of the base workbook, edited after cloning)
+    pub texts: Vec<Vec<&'static str>>,
+    pub bound: Option<u32>,
+}
+
+pub fn configs(tier: Tier) -> Vec<Config> {
+    let three = true; // both tiers use 3 text cells per book in the 2-saver configurations
+    let thorough = tier == Tier::Thorough;
+    let t = |a: &[&'static str]| -> Vec<&'static str> { a.to_vec() };
+    let mut v = vec![
+        Config { name: "2-savers-same-object", objects: vec![0, 0], texts: vec![if three { t(&["alpha", "beta", "gamma"]) } else { t(&["alpha", "beta"]) }], bound: None },
+        Config { name: "2-clones-equal-sets", objects: vec![0, 1], texts: vec![if three { t(&["alpha", "beta", "gamma"]) } else { t(&["alpha", "beta"]) }; 2], bound: None },
+        Config { name: "2-clones-disjoint-sets", objects: vec![0, 1], texts: if three { vec![t(&["a1", "a2", "a3"]), t(&["b1", "b2", "b3"])] } else { vec![t(&["a1", "a2"]), t(&["b1", "b2"])] }, bound: None },
+        Config { name: "2-clones-overlapping-sets", objects: vec![0, 1], texts: if three { vec![t(&["onlyA", "common", "alsoA"]), t(&["common", "onlyB", "alsoB"])] } else { vec![t(&["onlyA", "common"]), t(&["common", "onlyB"])] }, bound: None },
+        Config { name: "3-savers-shared+clone-overlapping", objects: vec![0, 0, 1], texts: vec![t(&["onlyA", "common"]), t(&["common", "onlyB"])], bound: Some(if thorough { 3 } else { 2 }) },
+        Config { name: "3-clones-disjoint", objects: vec![0, 1, 2], texts: vec![t(&["a1", "a2"]), t(&["b1", "b2"]), t(&["c1", "c2"])], bound: Some(if thorough { 3 } else { 2 }) },
+    ];
+    if thorough {
+        v.push(Config { name: "3-clones-overlapping", objects: vec![0, 1, 2], texts: vec![t(&["x", "common"]), t(&["common", "y"]), t(&["z", "common"])], bound: Some(3) });
+    }
+    v
+}
+
+/// Every execution builds its workbooks from scratch (a save mutates the shared table).
+fn build_books(cfg: &Config) -> Vec<Arc<Spreadsheet>> {
+    let mut base = new_file();
+    base.get_sheet_mut(&0).unwrap().get_cell_mut("D1").set_value_number(42);
+    let nobj = cfg.texts.len();
+    let mut objs: Vec<Spreadsheet> = vec![];
+    for j in 0..nobj {
+        let mut b = if j == 0 { base.clone() } else { objs[0].clone() }; // clones share the string table handle
+        if j == 0 {
+            b = base.clone();
+        }
+        objs.push(b);
+    }
+    // all objects are clones of one original; edit after cloning
+    let original = base;
+    let mut out = vec![];
+    for j in 0..nobj {
+        let mut b = original.clone();
+        for (i, t) in cfg.texts[j].iter().enumerate() {
+            b.get_sheet_mut(&0).unwrap().get_cell_mut((1u32, i as u32 + 1)).set_value_string(*t);
+        }
+        out.push(Arc::new(b));
+    }
+    let _ = objs;
+    cfg.objects.iter().map(|o| out[*o].clone()).collect()
+}
+
+fn expected_cells(cfg: &Config, saver: usize) -> Vec<(String, String)> {
+    let mut v: Vec<(String, String)> = cfg.texts[cfg.objects[saver]].iter().enumerate().map(|(i, t)| (format!("A{}", i + 1), t.to_string())).collect();
+    v.push(("D1".into(), "42".into()));
+    v
+}
+
+/// Oracle for one execution: every saver's output decodes to its own workbook's content.
+fn check_exec(cfg: &Config, ex: &Exec, out: &mut Vec<(String, String, String)>) -> u64 {
+    let mut outcome = String::new();
+    for (k, o) in ex.outputs.iter().enumerate() {
+        match o {
+            Err(e) => {
+                let sym = if e.starts_with("panic") { format!("saver-panicked:{}", panic_class(e)) } else { format!("saver-error:{}", panic_class(e)) };
+                out.push(("save-completes".into(), sym, format!("saver {}: {}", k, e)));
+                outcome.push_str("ERR;");
+            }
+            Ok(bytes) => match load_bytes(bytes, true) {
+                Err(e) => {
+                    out.push(("output-readable".into(), format!("unreadable:{}", panic_class(&e)), format!("saver {}: {}", k, e)));
+                    outcome.push_str("UNREADABLE;");
+                }
+                Ok(b2) => {
+                    let ws = b2.get_sheet(&0).unwrap();
+                    for (addr, want) in expected_cells(cfg, k) {
+                        let got = ws.get_value(addr.as_str());
+                        if got != want {
+                            let other = cfg.texts.iter().flatten().any(|t| *t == got);
+                            out.push(("content-equals-solo-save".into(), if other { "cell-shows-another-string".into() } else if got.is_empty() { "cell-text-missing".into() } else { "cell-text-wrong".into() }, format!("saver {} cell {}: expected {:?}, file shows {:?}", k, addr, want, got)));
+                        }
+                    }
+                    let n = ws.get_cell_collection().iter().filter(|c| !is_blank_cell(c)).count();
+                    if n != expected_cells(cfg, k).len() {
+                        out.push(("content-equals-solo-save".into(), "cell-count-differs".into(), format!("saver {}: {} non-blank cells, expected {}", k, n, expected_cells(cfg, k).len())));
+                    }
+                    // outcome signature: order of the dumped shared strings
+                    outcome.push_str(&shared_strings_signature(bytes));
+                    outcome.push(';');
+                }
+            },
+        }
+    }
+    fnv(outcome.as_bytes())
+}
+
+fn shared_strings_signature(bytes: &[u8]) -> String {
+    let mut s = String::new();
+    if let Ok(mut z) = zip::ZipArchive::new(std::io::Cursor::new(bytes)) {
+        if let Ok(mut f) = z.by_name("xl/sharedStrings.xml") {
+            use std::io::Read;
+            let mut x = String::new();
+            let _ = f.read_to_string(&mut x);
+            for part in x.split("<t").skip(1) {
+                if let Some(p) = part.find('>') {
+                    if let Some(q) = part.find("</t>") {
+                        if p < q {
+                            s.push_str(&part[p + 1..q]);
+                            s.push(',');
+                        }
+                    }
+                }
+            }
+        }
+    }
+    s
+}
+
+// ------------------------------------------------------------------------------------------------
+// exploration
+
+struct Explore<'a> {
+    cfg: &'a Config,
+    executions: u64,
+    steps: u64,
+    outcomes: std::collections::HashSet<u64>,
+    violations: Vec<(String, String, String, Vec<usize>)>,
+    sink_hashes: Vec<u64>,
+    rechecked: u64,
+    max_points: usize,
+}
+
+fn preemptions_before(ex: &Exec, i: usize) -> u32 {
+    (0..i).filter(|j| ex.zero_is_last[*j] && ex.choices[*j] != 0).count() as u32
+}
+
+impl<'a> Explore<'a> {
+    fn explore(&mut self, prefix: Vec<usize>, fixed: usize, beat: &Beat) {
+        let books = build_books(self.cfg);
+        let ex = match run_schedule(&books, &prefix, beat) {
+            Ok(e) => e,
+            Err(RunErr::Infeasible) => return,
+            Err(RunErr::Stuck(s)) => {
+                // deadlock / lost wake-up / non-terminating saver: hand over to the pool watchdog with a precise note
+                beat.note(&format!("DEADLOCK-OR-HANG config={} schedule prefix={:?}: {}", self.cfg.name, prefix, s));
+                loop {
+                    std::thread::sleep(Duration::from_secs(3600));
+                }
+            }
+        };
+        // replay divergence check on the prefix
+        if ex.choices.len() < prefix.len() {
+            return; // prefix longer than the execution: infeasible
+        }
+        if let Some(b) = self.cfg.bound {
+            if preemptions_before(&ex, prefix.len()) > b {
+                return; // the fixed split prefix alone exceeds the preemption bound
+            }
+        }
+        self.executions += 1;
+        self.steps += ex.choices.len() as u64;
+        self.max_points = self.max_points.max(ex.choices.len());
+        self.sink_hashes.extend(ex.progress_keys.iter().cloned());
+        let mut vs = vec![];
+        let oc = check_exec(self.cfg, &ex, &mut vs);
+        self.outcomes.insert(oc);
+        let violating = !vs.is_empty();
+        for (c, s, d) in vs {
+            self.violations.push((c, s, d, ex.choices.clone()));
+        }
+        // determinism self-check: the first executions of every sub-tree and every violating one are run again
+        if violating || self.rechecked < 3 {
+            self.rechecked += 1;
+            let books2 = build_books(self.cfg);
+            match run_schedule(&books2, &ex.choices, beat) {
+                Ok(ex2) => {
+                    let mut v2 = vec![];
+                    let oc2 = check_exec(self.cfg, &ex2, &mut v2);
+                    if ex2.choices != ex.choices || ex2.enabled != ex.enabled || ex2.sites != ex.sites || oc2 != oc {
+                        eprintln!("MACHINERY: C16 replay divergence for schedule {:?} (config {})", ex.choices, self.cfg.name);
+                        std::process::exit(2);
+                    }
+                }
+                Err(_) => {
+                    eprintln!("MACHINERY: C16 replay of schedule {:?} not feasible (config {})", ex.choices, self.cfg.name);
+                    std::process::exit(2);
+                }
+            }
+        }
+        for i in prefix.len().max(fixed)..ex.choices.len() {
+            let base_cost = preemptions_before(&ex, i);
+            for alt in 1..ex.enabled[i].len() {
+                let cost = base_cost + if ex.zero_is_last[i] { 1 } else { 0 };
+                if let Some(b) = self.cfg.bound {
+                    if cost > b {
+                        continue;
+                    }
+                }
+                let mut p: Vec<usize> = ex.choices[..i].to_vec();
+                p.push(alt);
+                self.explore(p, fixed, beat);
+            }
+        }
+    }
+}
+
+const SPLIT: usize = 4;
+
+/// pool case = (config, fixed prefix of SPLIT choices): explores every schedule that starts with that prefix
+struct Sched {
+    quick: bool,
+    cfgs: Vec<Config>,
+    prefixes: Vec<Vec<Vec<usize>>>,
+}
+fn all_prefixes(nsavers: usize) -> Vec<Vec<usize>> {
+    let mut v: Vec<Vec<usize>> = vec![vec![]];
+    for _ in 0..SPLIT {
+        let mut n = vec![];
+        for p in &v {
+            for c in 0..nsavers {
+                let mut q = p.clone();
+                q.push(c);
+                n.push(q);
+            }
+        }
+        v = n;
+    }
+    v
+}
+impl Sched {
+    fn new(tier: Tier) -> Sched {
+        let cfgs = configs(tier);
+        let prefixes = cfgs.iter().map(|c| all_prefixes(c.objects.len())).collect();
+        Sched { quick: tier == Tier::Quick, cfgs, prefixes }
+    }
+    fn locate(&self, i: u64) -> (usize, usize) {
+        let mut r = i as usize;
+        for (ci, p) in self.prefixes.iter().enumerate() {
+            if r < p.len() {
+                return (ci, r);
+            }
+            r -= p.len();
+        }
+        (0, 0)
+    }
+}
+impl Space for Sched {
+    fn len(&self) -> u64 {
+        self.prefixes.iter().map(|p| p.len() as u64).sum()
+    }
+    fn describe(&self, i: u64) -> Value {
+        let (c, p) = self.locate(i);
+        json!({"kind":"schedule-subtree","config": self.cfgs[c].name, "savers": self.cfgs[c].objects, "texts": self.cfgs[c].texts, "prefix": self.prefixes[c][p], "preemption_bound": self.cfgs[c].bound})
+    }
+    fn tags(&self, i: u64) -> Vec<String> {
+        let (c, _) = self.locate(i);
+        vec![format!("config:{}", self.cfgs[c].name)]
+    }
+    fn run(&self, i: u64, sink: &mut Sink) {
+        let (c, p) = self.locate(i);
+        let cfg = &self.cfgs[c];
+        let prefix = self.prefixes[c][p].clone();
+        // preemption cost of the fixed prefix is part of the bound: computed inside explore via zero_is_last
+        let mut e = Explore { cfg, executions: 0, steps: 0, outcomes: Default::default(), violations: vec![], sink_hashes: vec![], rechecked: 0, max_points: 0 };
+        install_hook();
+        SKIP_ENTRY_EXIT.store(self.quick, std::sync::atomic::Ordering::Relaxed);
+        e.explore(prefix.clone(), SPLIT, &sink.beat);
+        sink.evaluations += e.executions;
+        sink.count("executions", e.executions);
+        sink.count("transitions", e.steps);
+        sink.count(&format!("executions[{}]", cfg.name), e.executions);
+        sink.count(&format!("outcomes_per_subtree_sum[{}]", cfg.name), e.outcomes.len() as u64);
+        sink.count("determinism_rechecks", e.rechecked);
+        sink.count(&format!("max_points[{}]", cfg.name), 0);
+        sink.hashes.extend(e.sink_hashes);
+        // outcome hashes are kept apart from state keys by a tag bit
+        for o in &e.outcomes {
+            sink.hashes.push(*o | (1u64 << 63));
+        }
+        if let Ok(mut f) = std::fs::OpenOptions::new().create(true).append(true).open(format!("{}/outcomes.{}", work_dir("C16"), cfg.name)) {
+            use std::io::Write;
+            for o in &e.outcomes {
+                let _ = writeln!(f, "{:016x}", o);
+            }
+            let _ = writeln!(f, "points {}", e.max_points);
+        }
+        let tags = [format!("config:{}", cfg.name)];
+        let tg: Vec<&str> = tags.iter().map(|s| s.as_str()).collect();
+        for (cl, sy, d, choices) in e.violations {
+            sink.violations.push(Violation::new(&cl, &sy, &tg, json!({"config": cfg.name, "schedule": choices}), format!("config {} schedule {:?}: {}", cfg.name, choices, d)));
+        }
+    }
+}
+
+fn install_hook() {
+    umya_spreadsheet::verif_hook::install(hook);
+}
+
+/// Every lock operation on the shared string table in the library source must be preceded by a hook call;
+/// otherwise the enumeration is not complete at lock-site granularity and the check cannot decide.
+fn lock_sites_are_hooked() -> Result<usize, String> {
+    fn walk(dir: &std::path::Path, out: &mut Vec<std::path::PathBuf>) {
+        if let Ok(rd) = std::fs::read_dir(dir) {
+            for e in rd.flatten() {
+                let p = e.path();
+                if p.is_dir() {
+                    walk(&p, out);
+                } else if p.extension().map(|x| x == "rs").unwrap_or(false) {
+                    out.push(p);
+                }
+            }
+        }
+    }
+    let mut files = vec![];
+    walk(std::path::Path::new(&format!("{}/src", repo_root())), &mut files);
+    let mut sites = 0;
+    for f in files {
+        if f.ends_with("verif_hook.rs") {
+            continue;
+        }
+        let txt = std::fs::read_to_string(&f).unwrap_or_default();
+        let lines: Vec<&str> = txt.lines().collect();
+        for (i, l) in lines.iter().enumerate() {
+            let t = l.trim();
+            let is_lock = (t.contains(".read()") || t.contains(".write()")) && (t.contains("shared_string_table") || (i > 0 && lines[i - 1].contains("shared_string_table") && t.starts_with('.')));
+            if is_lock {
+                sites += 1;
+                let lo = i.saturating_sub(8);
+                if !lines[lo..i].iter().any(|x| x.contains("verif_hook::point")) {
+                    return Err(format!("{}:{}: lock operation on the shared string table without a preceding verif_hook::point", f.display(), i + 1));
+                }
+            }
+        }
+    }
+    if sites < 3 {
+        return Err(format!("only {} lock sites found in {}/src (source layout changed?)", sites, repo_root()));
+    }
+    Ok(sites)
+}
+
+pub fn space(tier: Tier, id: &str) -> Option<Box<dyn Space>> {
+    match id {
+        "schedules" => Some(Box::new(Sched::new(tier))),
+        _ => None,
+    }
+}
+
+fn replay(tier: Tier, case: &Value) -> Vec<Violation> {
+    let name = case["config"].as_str().unwrap_or("");
+    let cfgs = configs(tier);
+    let cfg = match cfgs.iter().find(|c| c.name == name) {
+        Some(c) => c.clone(),
+        None => {
+            // subtree case from a hang report
+            return replay_e1(space(tier, case["_space"].as_str().unwrap_or("schedules")), case);
+        }
+    };
+    let choices: Vec<usize> = case["schedule"].as_array().map(|a| a.iter().filter_map(|x| x.as_u64().map(|v| v as usize)).collect()).unwrap_or_default();
+    install_hook();
+    SKIP_ENTRY_EXIT.store(tier == Tier::Quick, std::sync::atomic::Ordering::Relaxed);
+    let books = build_books(&cfg);
+    let beat = Beat(std::ptr::null_mut());
+    let mut out = vec![];
+    match run_schedule(&books, &choices, &beat) {
+        Ok(ex) => {
+            let mut vs = vec![];
+            check_exec(&cfg, &ex, &mut vs);
+            let tags = [format!("config:{}", cfg.name)];
+            let tg: Vec<&str> = tags.iter().map(|s| s.as_str()).collect();
+            for (c, s, d) in vs {
+                out.push(Violation::new(&c, &s, &tg, case.clone(), d));
+            }
+        }
+        Err(RunErr::Infeasible) => {
+            eprintln!("replay: schedule not feasible (divergence)");
+            std::process::exit(2);
+        }
+        Err(RunErr::Stuck(s)) => out.push(Violation::new("terminates", "hang", &[], case.clone(), s)),
+    }
+    out
+}
+
+fn run(ctx: &Ctx) -> i32 {
+    let sites = match lock_sites_are_hooked() {
+        Ok(n) => n,
+        Err(e) => {
+            eprintln!("MACHINERY: C16 cannot decide: {}", e);
+            return 2;
+        }
+    };
+    let wd = work_dir("C16");
+    if let Ok(rd) = std::fs::read_dir(&wd) {
+        for e in rd.flatten() {
+            if e.file_name().to_string_lossy().starts_with("outcomes.") {
+                let _ = std::fs::remove_file(e.path());
+            }
+        }
+    }
+    let cfgs = configs(ctx.tier);
+    let spaces = vec![("schedules", space(ctx.tier, "schedules").unwrap())];
+    let cfgs2 = cfgs.clone();
+    run_e1_with(
+        ctx,
+        E1Spec {
+            spaces,
+            cfg: PoolCfg { chunk: 1, case_timeout: Duration::from_secs(60), ..Default::default() },
+            level: "model_checking",
+            rule: "stateless exploration of thread interleavings of real concurrent write_writer calls under a cooperative scheduler: scheduling points = every shared-string-table lock operation (hook before each) + make_buffer entry/exit + thread start; 2-saver configurations are explored COMPLETELY (all interleavings), 3-saver configurations up to the stated preemption bound; every execution rebuilds its workbooks; each saver's output is reloaded and must show exactly its own workbook's cells. states = distinct (per-saver progress vector, running saver, parked sites) scheduler states + distinct outcomes; transitions = scheduling steps; traces_validated_against_impl = every step runs the real code".into(),
+            alphabets: json!({"configurations": cfgs.iter().map(|c| json!({"name": c.name, "savers": c.objects, "texts": c.texts, "preemption_bound": c.bound})).collect::<Vec<_>>(), "lock_sites_found_and_hooked": sites}),
+            bounds: json!({"savers": "2 (complete) and 3 (preemption-bounded)", "text_cells_per_book": "3 (2-saver configurations), 2 (3-saver configurations)", "split_prefix_length": SPLIT, "entry_exit_points": if ctx.tier == Tier::Thorough {"scheduling points"} else {"not scheduling points in the quick tier (sound reduction: no shared-state operation between them and the neighbouring lock site)"}}),
+            exhaustive: true,
+            caps_hit: vec![],
+            assumptions: vec!["between two scheduling points a saver touches shared state only inside one lock-protected critical section (no unsafe, the table is reachable only through the lock), so every real execution is equivalent to an enumerated point-level interleaving".into(), "memory-ordering effects below the lock granularity are not modelled (std RwLock gives sequential consistency for the protected data)".into()],
+            min_distinct: 10,
+        },
+        move |cov, counters| {
+            // distinct outcomes per configuration (merged over sub-trees)
+            let mut per = serde_json::Map::new();
+            for c in &cfgs2 {
+                let mut set = std::collections::BTreeSet::new();
+                let mut points = 0u64;
+                if let Ok(t) = std::fs::read_to_string(format!("{}/outcomes.{}", work_dir("C16"), c.name)) {
+                    for l in t.lines() {
+                        if let Some(p) = l.strip_prefix("points ") {
+                            points = points.max(p.parse().unwrap_or(0));
+                        } else {
+                            set.insert(l.to_string());
+                        }
+                    }
+                }
+                per.insert(c.name.to_string(), json!({"executions": counters.get(&format!("executions[{}]", c.name)).cloned().unwrap_or(0), "distinct_outcomes": set.len(), "scheduling_points_per_execution": points, "preemption_bound": c.bound, "complete": c.bound.is_none()}));
+            }
+            cov.insert("per_configuration".into(), Value::Object(per));
+            let ex = counters.get("executions").cloned().unwrap_or(0);
+            cov.insert("schedules_explored".into(), json!(ex));
+        },
+    )
 }
